@@ -68,6 +68,12 @@ func c03Catalogue(ts []*vlib.Target) []struct {
 
 // c03Events builds the directed event set of a policy.
 func c03Events(r *rand.Rand, p *seccomp.Policy, t *vlib.Target, nrs []uint32) []vlib.Event {
+	return c03EventsRef(r, p, t, nrs, nil)
+}
+
+// c03EventsRef: with a reference the satisfying event of a list is re-drawn (up to 8 times) until the reference
+// says that this very list decides, so that lists behind other satisfiable lists of the same syscall are reached too.
+func c03EventsRef(r *rand.Rand, p *seccomp.Policy, t *vlib.Target, nrs []uint32, ref *vlib.Ref) []vlib.Event {
 	pool := vlib.AdversarialPool(p, t)
 	var evs []vlib.Event
 	listed := vlib.PolicyNumbers(p, t)
@@ -80,19 +86,60 @@ func c03Events(r *rand.Rand, p *seccomp.Policy, t *vlib.Target, nrs []uint32) []
 		return o
 	}
 	budget := 1500
-	for _, g := range p.Syscalls {
+	if n := 0; true {
+		for _, g := range p.Syscalls {
+			n += len(g.NamesWithCondtions)
+		}
+		if n*40 > budget { // long condition lists: every list gets its directed events
+			budget = n * 40
+		}
+		if budget > 30000 {
+			budget = 30000
+		}
+	}
+	for gi, g := range p.Syscalls {
+		seenName := map[string]int{}
+		earlier := map[string][][]seccomp.Condition{} // earlier lists of the same syscall in this group
 		for _, nc := range g.NamesWithCondtions {
+			li := seenName[nc.Name]
+			seenName[nc.Name]++
+			avoid := earlier[nc.Name]
+			earlier[nc.Name] = append(earlier[nc.Name], []seccomp.Condition(nc.Conditions))
 			if len(evs) > budget {
 				break
 			}
 			nr := t.Num[nc.Name]
 			var argsets [][6]uint64
-			if a, ok := vlib.Satisfy(r, nc.Conditions, vlib.FillArgs(r, pool)); ok {
-				argsets = append(argsets, a)
+			for try := 0; try < 8; try++ {
+				a, ok := vlib.SatisfyAvoiding(r, nc.Conditions, avoid, vlib.FillArgs(r, pool))
+				if !ok {
+					a, ok = vlib.Satisfy(r, nc.Conditions, vlib.FillArgs(r, pool))
+				}
+				if !ok {
+					break
+				}
+				if ref == nil {
+					argsets = append(argsets, a)
+					break
+				}
+				_, why := ref.Decide(vlib.Event{NR: nr, Arch: t.ID, Args: a})
+				if (why.Kind == vlib.WhyList && why.Group == gi && why.List == li) || try == 7 {
+					argsets = append(argsets, a)
+					break
+				}
 			}
 			for k := range nc.Conditions {
 				if a, ok := vlib.FailExactly(r, nc.Conditions, k, vlib.FillArgs(r, pool)); ok {
 					argsets = append(argsets, a)
+				}
+			}
+			// every branch of every condition's lowering, with the rest of the list in its matching state
+			if len(argsets) > 0 && len(evs) < budget {
+				sat := argsets[0]
+				for k := range nc.Conditions {
+					for _, a := range vlib.CondNeighbourhood(nc.Conditions, k, sat) {
+						evs = append(evs, vlib.Event{NR: nr, Arch: t.ID, Args: a})
+					}
 				}
 			}
 			for _, a := range argsets {
@@ -105,11 +152,12 @@ func c03Events(r *rand.Rand, p *seccomp.Policy, t *vlib.Target, nrs []uint32) []
 		}
 	}
 	// all-lists-fail / random events under every conditional number and a few others
-	for _, nr := range listed {
-		if len(evs) > 2*budget {
-			break
+	for li, nr := range listed {
+		reps := 3
+		if len(evs) > 2*budget || li > 400 {
+			reps = 1 // every listed number gets at least one event
 		}
-		for k := 0; k < 3; k++ {
+		for k := 0; k < reps; k++ {
 			evs = append(evs, vlib.Event{NR: nr, Arch: t.ID, IP: pool[r.Intn(len(pool))], Args: vlib.FillArgs(r, pool)})
 		}
 	}
@@ -163,7 +211,8 @@ func c03() {
 				nrsOK = append(nrsOK, nr)
 			}
 		}
-		evs := c03Events(r, p, t, nrsOK)
+		evs := c03EventsRef(r, p, t, nrsOK, ref)
+		pool0 := vlib.AdversarialPool(p, t)
 		cov := vlib.NewCov(len(c.Raw))
 		local := map[string]int64{}
 		for _, e := range evs {
@@ -206,6 +255,51 @@ func c03() {
 			}
 		}
 		run.Count("events", int64(len(evs)))
+		// path-directed phase: for every branch edge the directed events did not execute, search a path to it, solve its
+		// word constraints and judge the resulting event as well
+		if len(c.Raw) <= run.N(500, 3000) {
+			pool32 := make([]uint32, 0, 2*len(pool0))
+			for _, v := range pool0 {
+				pool32 = append(pool32, uint32(v), uint32(v>>32))
+			}
+			fill := func(word int) []uint32 {
+				if word == 1 {
+					return []uint32{t.ID}
+				}
+				k := r.Intn(len(pool32))
+				return []uint32{pool32[k], pool32[(k+7)%len(pool32)], pool32[(k+13)%len(pool32)]}
+			}
+			failed := false
+			ps := vlib.CoverEdges(r, c.Raw, cov, fill, run.N(40000, 1500000), func(w [16]uint32) {
+				e := vlib.EventFromWords(w)
+				tr, err := c.RunBoth(&w, cov, false)
+				if e.Arch != t.ID || (t.X32Guard && e.NR >= vlib.X32Bit) {
+					run.Count("path_events_foreign_or_x32_not_judged_here", 1)
+					return
+				}
+				want, why := ref.Decide(e)
+				run.Count("path_directed_events", 1)
+				if (err != nil || tr.Ret != want) && !failed {
+					failed = true
+					got := fmt.Sprintf("%#x", tr.Ret)
+					if err != nil {
+						got = "fault: " + err.Error()
+					}
+					run.Violation("path-directed-event-disagrees", fmt.Sprintf("arch %s, program of %d instructions: event %v (generated to reach an unexecuted branch): filter gives %s, policy says %#x (kind %d, group %d)", t.Name, len(c.Raw), e, got, want, why.Kind, why.Group),
+						map[string]any{"check": "C03", "policy": spec, "event": e, "expected": want, "observed": got, "case": i})
+				}
+			})
+			run.Count("path_phase_programs", 1)
+			run.Count("path_phase_edges_total", int64(ps.Edges))
+			run.Count("path_phase_edges_covered", int64(ps.Covered))
+			run.Count("path_phase_edges_left_unsolved", int64(ps.Unsolved))
+			if ps.StepBudget {
+				run.Count("path_phase_budget_exhausted", 1)
+			}
+			if failed {
+				return
+			}
+		}
 		g, tot := cov.Covered(c.Raw)
 		lists, conds := 0, 0
 		for _, grp := range p.Syscalls {
@@ -263,5 +357,5 @@ func c03() {
 		run.Require("programs_over_255", 1)
 	}
 	run.Finish(run.Counter("events"), int64(len(shapes)),
-		"policies mixing unconditional and conditional entries (catalogue + PRNG; repeated arguments, same syscall in several groups, 10..30-list entries, programs past 255/1000 instructions); directed events: per list one satisfying event, per condition one failing exactly it, each replayed under other listed/unlisted numbers (leak probes), plus adversarial fills; distinct = distinct (groups, lists, conditions, program length) shapes")
+		"policies mixing unconditional and conditional entries (catalogue + PRNG; repeated arguments, same syscall in several groups, 10..30-list entries, programs past 255/1000 instructions); directed events: per list one satisfying event, per condition one failing exactly it, each replayed under other listed/unlisted numbers (leak probes), plus adversarial fills; then a path-directed phase that searches, for every branch edge not yet executed, a path to it, solves the per-word constraints and judges the resulting event too; distinct = distinct (groups, lists, conditions, program length) shapes")
 }
